@@ -2,6 +2,7 @@ import OsuProofs.EstJacobian
 import OsuProofs.EstRotation
 import OsuProofs.EstPSD
 import OsuProofs.NewtonRotation
+import OsuProofs.JacobianRotation
 import OsuProofs.MemRotation
 /-
 C06 — estimators reproduce the input moments; solvers agree; the Jacobian is the derivative of
@@ -227,11 +228,31 @@ theorem constraints_rotate {N : ℕ} [NeZero N] (θ0 Δ : ℝ) (k : Fin N) (lam 
       = rotLam (phiR k) (constraints lam M (gridDelta N Δ) (gridT (N := N) θ0)) :=
   constraints_rot θ0 Δ k lam M hM
 
+/-- `J(Rλ) = R J(λ) Rᵀ`: on every uniform grid the Jacobian at the rotated multipliers is the
+Jacobian conjugated by the rotation (entry by entry, `Rmat` being the entries of `R`) — the fact
+that makes an exact Newton step equivariant -/
+theorem jacobian_rotates {N : ℕ} [NeZero N] (θ0 Δ : ℝ) (hΔ : 0 < Δ) (k : Fin N) (lam : List ℝ) (m n : ℕ)
+    (hm : m < 4) (hn : n < 4) :
+    ((jacobian (rotLam (phiR k) lam) (gridDelta N Δ) (gridT (N := N) θ0)).getD m []).getD n 0
+      = ∑ a ∈ Finset.range 4, ∑ b ∈ Finset.range 4, Rmat (phiR k) m a * Rmat (phiR k) n b *
+          ((jacobian lam (gridDelta N Δ) (gridT (N := N) θ0)).getD a []).getD b 0 := by
+  have hN : 0 < N := Nat.pos_of_ne_zero (NeZero.ne N)
+  have hδ : ∀ d ∈ gridDelta N Δ, 0 < d := by
+    intro d hd; simp only [gridDelta, List.mem_ofFn] at hd; obtain ⟨_, rfl⟩ := hd; exact hΔ
+  have hT : gridT (N := N) θ0 ≠ [] := by
+    intro h; have := congrArg List.length h; simp [gridT] at this; omega
+  have hd : gridDelta N Δ ≠ [] := by
+    intro h; have := congrArg List.length h; simp [gridDelta] at this; omega
+  rw [jacobian_is_covariance _ _ _ m n hm hn hδ hT hd, covEntry_rot θ0 Δ k lam m n hm hn]
+  apply Finset.sum_congr rfl; intro a ha
+  apply Finset.sum_congr rfl; intro b hb
+  rw [jacobian_is_covariance _ _ _ a b (Finset.mem_range.1 ha) (Finset.mem_range.1 hb) hδ hT hd]
+
 /-- **MEM2 / Newton rotates with its input**: the whole damped Newton iteration with its line search
 (any tolerance, iteration cap, line-search depth; converged or not) maps moments rotated by `k` bins
 to the distribution rotated by `k` bins, on every uniform grid, provided the Newton step
-(Jacobian + linear solve) is equivariant — which an exact solve is, since `J(Rλ) = R J(λ) Rᵀ`;
-that last fact is the hypothesis `StepEquivariant`, not proved here -/
+(Jacobian + linear solve) is equivariant — hypothesis `StepEquivariant`; for an exact linear solve
+it follows from `jacobian_rotates` (`J(Rλ) = R J(λ) Rᵀ`) and `RᵀR = I`, a step not formalised here -/
 theorem newton_rotates {N : ℕ} [NeZero N] (solve : List (List ℝ) → List ℝ → List ℝ) (atol : ℝ) (maxIter lsDepth : ℕ)
     (θ0 Δ : ℝ) (k : Fin N) (hS : StepEquivariant solve θ0 Δ k) (a1 b1 a2 b2 : ℝ) :
     ∃ D : Fin N → ℝ,
